@@ -26,7 +26,7 @@ pub fn registry(property: &str) -> Option<CheckSpec> {
         "C19" => Some(CheckSpec {
             property: "C19",
             level: "fault_enumeration",
-            parts: vec![Part::new(scenario::LpStaking, 4_000, 80_000)],
+            parts: vec![Part::new(scenario::LpStaking, 2_000, 40_000)],
             assumptions: vec![
                 "liquidity-provider program only: privileges are the global-state authority (set_claim_enabled, set_pricing_staleness, update_apy_gradient_range/sparse, update_min_stake_value, transfer_authority, create/disable_lp_token_controller), the pending authority (accept_authority) and position / token-account ownership (claim_gt, unstake_lp, stake_gm)".into(),
                 "twins are executed on a fork of the pre-state of a transaction that landed with the legitimate signer, so every twin is otherwise well-formed".into(),
